@@ -403,7 +403,7 @@ func TestC01(t *testing.T) {
 		for _, other := range []string{"Must" + g, g + "InContext", "Must" + g + "InContext", "Must" + strings.ToUpper(g[:1]) + g[1:], "Get", "GetParam", "Container",
 			// the unexported helper methods the template declares on the container type
 			"_getEnv", "_getEnvInt", "_paramTodo", "_callProvider", "_concatenateChunks"} {
-			for v := 0; v < 4; v++ {
+			for v := 0; v < 8; v++ {
 				idx++
 				if !ev.Mine(idx) {
 					continue
@@ -416,6 +416,9 @@ func TestC01(t *testing.T) {
 					c.Services[0].Must = bp(true)
 				} else {
 					c.Meta.DefaultMust = bp(true)
+				}
+				if v&4 != 0 {
+					c.Services[1].Todo = bp(false) // spelled out: still a real service
 				}
 				members = append(members, c01Member{Files: []cfg.Config{c}, Stub: v&2 != 0, Labels: []string{"derived-name-collision-candidate", "getter-pair:" + g + "+" + other, fmt.Sprintf("stub:%v", v&2 != 0)}})
 			}
